@@ -75,6 +75,7 @@ class SubcircuitExpander(Visitor):
             new_circuit.macros[name] = new_macro
         new_circuit.constants.update(circuit.constants)
         new_circuit.registers.update(circuit.registers)
+        new_circuit.usepulses.extend(circuit.usepulses)
         new_circuit.body.statements.extend(self.visit(circuit.body).statements)
         return new_circuit
 
